@@ -27,10 +27,11 @@ import (
 
 // one operation of a submitter / reader goroutine, fully drawn before the run
 type op struct {
-	kind   string // inbound mempool internal batch getTx byAddr pendingAll build priority validate
+	kind   string // inbound mempool internal batch asyncInbound asyncBatch getTx byAddr pendingAll priority validate
 	txs    []*types.Transaction
 	addr   common.Address
 	yields int
+	pause  time.Duration // real sleep before the operation (stretched runs, so that the keeper's 100 ms poll falls inside)
 }
 
 type chainOp struct {
@@ -103,11 +104,24 @@ func TestConcurrent(t *testing.T) {
 			p.Balances[i] = sim.Dna(2000000)
 		}
 		w := sim.NewWorld(p)
-		r, err := w.AddReplica("A", w.God.Key, nil)
+		// the node runs the pool with the on-disk tx keeper and hands gossip submissions to an AsyncTxPool
+		keeper := rapid.IntRange(0, 3).Draw(t, "txKeeper") != 0
+		stretch := keeper && rapid.Bool().Draw(t, "stretch")
+		asyncShare := rapid.SampledFrom([]int{0, 3, 3, 6}).Draw(t, "asyncShare") // tenths of inbound submissions
+		var r *sim.Replica
+		var err error
+		dataDir := ""
+		if keeper {
+			dataDir = freshDataDir()
+			r, err = newKeeperNode(w, "A", w.God.Key, dataDir)
+		} else {
+			r, err = w.AddReplica("A", w.God.Key, nil)
+		}
 		if err != nil {
 			t.Fatalf("replica: %v", err)
 		}
 		pool := r.Pool
+		async := mempool.NewAsyncTxPool(pool)
 		m := r.Cfg.Mempool
 		limits := rapid.SampledFrom([]string{"default", "default", "tight"}).Draw(t, "limits")
 		if limits == "tight" {
@@ -173,11 +187,17 @@ func TestConcurrent(t *testing.T) {
 		for i := 0; i < opsPer*nG; i++ {
 			g := rapid.IntRange(0, nG-1).Draw(t, "g")
 			o := op{yields: rapid.IntRange(0, 3).Draw(t, "yields")}
+			if stretch {
+				o.pause = time.Duration(rapid.SampledFrom([]int{0, 0, 1, 2, 4, 8}).Draw(t, "pauseMs")) * time.Millisecond
+			}
 			si := rapid.IntRange(0, nSenders-1).Draw(t, "sender")
 			o.addr = w.Actors[si].Addr
 			switch k := rapid.IntRange(0, 19).Draw(t, "opKind"); {
 			case k <= 5:
 				o.kind, o.txs = "inbound", []*types.Transaction{pick(si)}
+				if rapid.IntRange(0, 9).Draw(t, "viaAsync") < asyncShare {
+					o.kind = "asyncInbound"
+				}
 			case k <= 8:
 				o.kind, o.txs = "mempool", []*types.Transaction{pick(si)}
 			case k <= 10:
@@ -186,6 +206,9 @@ func TestConcurrent(t *testing.T) {
 				o.kind = "batch"
 				for j := rapid.IntRange(2, 6).Draw(t, "batch"); j > 0; j-- {
 					o.txs = append(o.txs, pick(si))
+				}
+				if rapid.IntRange(0, 9).Draw(t, "viaAsync") < asyncShare {
+					o.kind = "asyncBatch"
 				}
 			case k == 12:
 				o.kind, o.txs = "getTx", []*types.Transaction{all[rapid.IntRange(0, len(all)-1).Draw(t, "getIdx")]}
@@ -267,6 +290,9 @@ func TestConcurrent(t *testing.T) {
 					for y := 0; y < o.yields; y++ {
 						runtime.Gosched()
 					}
+					if o.pause > 0 {
+						time.Sleep(o.pause)
+					}
 					gen0 := atomic.LoadInt64(&syncGen)
 					enter()
 					var err error
@@ -279,6 +305,11 @@ func TestConcurrent(t *testing.T) {
 						err = pool.AddInternalTx(o.txs[0])
 					case "batch":
 						err = pool.AddExternalTxs(validation.InboundTx, o.txs...)
+					case "asyncInbound", "asyncBatch":
+						// the gossip handler's path: never blocks (select/default on a 10000-slot queue); admission happens later on the loop goroutine
+						if e := async.AddExternalTxs(validation.InboundTx, o.txs...); e != nil {
+							gf.set(fmt.Sprintf("AsyncTxPool.AddExternalTxs refused %d txs with %v although its queue (10000) cannot be full", len(o.txs), e))
+						}
 					case "getTx":
 						pool.GetTx(o.txs[0].Hash())
 					case "byAddr":
@@ -392,21 +423,35 @@ func TestConcurrent(t *testing.T) {
 		done := make(chan struct{})
 		go func() { wg.Wait(); close(done) }()
 		close(start)
-		select {
-		case <-done:
-		case <-time.After(concTimeout):
+		persistDuringRun := false
+		wedged := func(what string) {
 			buf := make([]byte, 4<<20)
 			buf = buf[:runtime.Stack(buf, true)]
 			n, stacks := lockWaitersInRepo(string(buf))
 			evid.Flush()
 			if n >= 2 {
-				fmt.Fprintf(os.Stderr, "C14: concurrent run did not finish within %v; %d goroutines wait for locks inside pool/state code:\n%s\n", concTimeout, n, strings.Join(stacks, "\n\n"))
+				fmt.Fprintf(os.Stderr, "C14: %s within %v; %d goroutines wait for locks inside pool/state code:\n%s\n", what, concTimeout, n, strings.Join(stacks, "\n\n"))
 				fmt.Fprintf(os.Stderr, "FINDING property=C14 key=c14.deadlock\n--- FAIL: TestConcurrent (deadlock)\nfull dump:\n%s\n", buf)
 				os.Exit(1)
 			}
 			// not attributable to a lock cycle in the repository: inconclusive (the driver maps this exit code to exit 2)
-			fmt.Fprintf(os.Stderr, "C14: INCONCLUSIVE: concurrent run did not finish within %v, no lock cycle inside pool/state code visible\n%s\n", concTimeout, buf)
+			fmt.Fprintf(os.Stderr, "C14: INCONCLUSIVE: %s within %v, no lock cycle inside pool/state code visible\n%s\n", what, concTimeout, buf)
 			os.Exit(3)
+		}
+		select {
+		case <-done:
+		case <-time.After(concTimeout):
+			wedged("concurrent run did not finish")
+		}
+		if keeper {
+			_, persistDuringRun = keptOnDisk(dataDir)
+		}
+		// AsyncTxPool has no stop: wait until its loop goroutine has handed everything to the pool and parked
+		for deadline := time.Now().Add(concTimeout); !asyncLoopsIdle(); {
+			if time.Now().After(deadline) {
+				wedged("AsyncTxPool loop did not drain its queue")
+			}
+			time.Sleep(time.Millisecond)
 		}
 		select {
 		case msg := <-panics:
